@@ -37,4 +37,8 @@ def handle (line : String) : String :=
            kv "disj" (f (witnessP okDisj Gen.IRI_REGEX Gen.IRELATIVE_REF_REGEX))]
   | _ => "bad-op"
 
+abbrev State := Unit
+def init : State := ()
+def step (_ : State) (line : String) : State × String := ((), handle line)
+
 end SophiaModel.Driver.C09
